@@ -13,6 +13,11 @@ THEOREMS = [
     "measure_count",
     "measure_energy",
     "measure_zip_calls",
+    "ctor_offset_accepted_only",
+    "rejected_iff_no_contribution",
+    "rejected_call_invisible",
+    "measure_energy_accepted_calls",
+    "measure_energy_rejected_call_invisible",
     "chunk_terminates",
     "chunk_fuel_irrelevant",
     "chunk_log",
@@ -47,7 +52,13 @@ RULE = ("measure: every T in 0..60 (130 thorough) x sampling period none,1..12 (
         "timesteps / timesteps_sample / timesteps_measure and both tempering drivers (offset differing from slot to slot), "
         "returned energy vs -<n>/beta + the DOCUMENTED offset from a manual timestep loop (Ising: sum|J| + N(Gamma+|h|) from the "
         "constructor arguments, h of both signs; generic: minus the sum of the smallest diagonal entries of the _and_offset terms "
-        "the harness registered, stored matrices checked entry by entry; get_offset() is only compared against these); itime: imaginary_time_fold on real Ising and generic samplers; "
+        "the harness registered, stored matrices checked entry by entry; get_offset() is only compared against these; three quarters of "
+        "the generic samplers are built through a mix of ACCEPTED and REJECTED make_*_interaction_and_offset calls and reused after "
+        "a rejected call issued after the warm-up steps (rejected calls have a non-zero smallest diagonal entry; reasons: variable "
+        "named twice, negative off-diagonal weight, variable index >= nvars, matrix size not fitting the variable list, no variable, "
+        "size no power of four/two; also on converted samplers and on replicas inside a tempering container), the documented offset "
+        "counts the accepted calls only, get_offset() must equal it exactly, the single-sampler energy is compared at 1e-12, and the "
+        "model replays every call (QmcModel/QmcCtor.lean) and must reproduce get_offset() and each call's Ok/Err); itime: imaginary_time_fold on real Ising and generic samplers; "
         "edge: excluded inputs run once. Non-trivial = at least one sample taken (measure) / at least one replica and "
         "one step (temper) / at least one operator (itime); distinct = distinct full input line.")
 
